@@ -71,6 +71,25 @@ pub fn same_outcome(exp: &OutT, from: &StateT, obs: &RespT, post: &StateT) -> Re
             return Err("query result differs".into());
         }
     }
+    touched_ok(exp, from, obs)
+}
+
+/// Informational conformance beyond what the properties state: does the implementation emit its
+/// messages in the order the specification lists them (the code's call-site order), and does it
+/// emit attributes the specification does not model?  Counted, never judged.
+pub fn informational(exp: &OutT, obs: &RespT) -> (bool, Vec<String>) {
+    let order_same = exp.resp.msgs == obs.msgs;
+    let extra: Vec<String> = obs
+        .attrs
+        .keys()
+        .filter(|k| !exp.resp.attrs.contains_key(*k))
+        .cloned()
+        .collect();
+    (order_same, extra)
+}
+
+fn touched_ok(exp: &OutT, from: &StateT, obs: &RespT) -> Result<(), String> {
+    let epost = apply_diff(from, &exp.post)?;
     if abstract_touched(from, &epost) != obs.touched {
         return Err(format!("touched entries: expected {:?} observed {:?}", abstract_touched(from, &epost), obs.touched));
     }
@@ -83,6 +102,84 @@ struct Stats {
     mismatches: AtomicU64,
     roundtrip_failures: AtomicU64,
     parse_failures: AtomicU64,
+    followups: AtomicU64,
+    info_order_differs: AtomicU64,
+    info_extra_attrs: AtomicU64,
+}
+
+/// the post-state of the first admissible outcome (what the specification expected)
+fn apply_first(e: &EdgeT) -> StateT {
+    e.outs.first().and_then(|o| apply_diff(&e.from, &o.post).ok()).unwrap_or_else(|| e.from.clone())
+}
+
+/// Divergence probes.  When the implementation reaches a state the specification does not
+/// (a replay mismatch with a different post-state), the downstream consequences are outside the
+/// model's graph.  They are made visible by running, on copies of the diverged storage, the
+/// requests that wind the book down: owner cancel and executor expire of every order, and
+/// complete fills of every crossing pair at either limit price.  Each is recorded as an
+/// independent observation (pre = the diverged state) and judged by TLC like any other.
+fn followups(w: &mut World, e: &EdgeT, post: &StateT, seq: u64) -> Vec<ObsT> {
+    let mut out = vec![];
+    w.set_env(&e.env);
+    w.inject(post);
+    if &w.project() != post {
+        return out;
+    }
+    let snap = w.snapshot();
+    let exec = post.cfg.executors.first().cloned().unwrap_or_else(|| "exec1".to_string());
+    let mut reqs: Vec<ReqT> = vec![];
+    for (k, a) in &post.asks {
+        reqs.push(ReqT::CancelAsk { sender: a.owner.clone(), funds: vec![], id: k.clone(), size: -1 });
+        reqs.push(ReqT::ExpireAsk { sender: exec.clone(), funds: vec![], id: k.clone(), size: -1 });
+    }
+    for (k, b) in &post.bids {
+        reqs.push(ReqT::CancelBid { sender: b.owner.clone(), funds: vec![], id: k.clone(), size: -1 });
+        reqs.push(ReqT::ExpireBid { sender: exec.clone(), funds: vec![], id: k.clone(), size: -1 });
+    }
+    for k in post.asks.keys() {
+        reqs.push(ReqT::QueryAsk { sender: "anyone".into(), funds: vec![], id: k.clone() });
+    }
+    for k in post.bids.keys() {
+        reqs.push(ReqT::QueryBid { sender: "anyone".into(), funds: vec![], id: k.clone() });
+    }
+    for (ak, a) in &post.asks {
+        for (bk, b) in &post.bids {
+            let s = a.size.min(b.size - b.ab);
+            if s >= 1 && a.quote == b.quote {
+                for p in [a.price.clone(), b.price.clone()] {
+                    reqs.push(ReqT::ExecuteMatch {
+                        sender: exec.clone(),
+                        funds: vec![],
+                        ask_id: ak.clone(),
+                        bid_id: bk.clone(),
+                        price: p,
+                        size: s,
+                    });
+                }
+            }
+        }
+    }
+    for r in reqs.into_iter().take(24) {
+        w.restore(&snap);
+        let resp = w.call(&r);
+        let p2 = w.project();
+        out.push(ObsT {
+            src: format!("followup:{}", e.scen),
+            seq,
+            reset: false,
+            chained: false,
+            native: e.native,
+            probe: false,
+            pre: post.clone(),
+            env: e.env.clone(),
+            req: r,
+            resp,
+            post: p2,
+            dontcare: vec![],
+            ledger: None,
+        });
+    }
+    out
 }
 
 fn unescape_line(line: &str) -> Option<String> {
@@ -93,20 +190,22 @@ fn unescape_line(line: &str) -> Option<String> {
     serde_json::from_str::<String>(line).ok()
 }
 
-pub fn replay_edge(w: &mut World, e: &EdgeT) -> (RespT, StateT, Result<(), String>, bool) {
+pub fn replay_edge(w: &mut World, e: &EdgeT) -> (RespT, StateT, Result<(), String>, bool, (bool, Vec<String>)) {
     w.set_env(&e.env);
     w.inject(&e.from);
     let rt_ok = w.project() == e.from;
     let resp = w.call(&e.req);
     let post = w.project();
     let mut verdict = Err("no admissible outcome listed".to_string());
+    let mut info = (true, vec![]);
     for o in &e.outs {
         verdict = same_outcome(o, &e.from, &resp, &post);
         if verdict.is_ok() {
+            info = informational(o, &resp);
             break;
         }
     }
-    (resp, post, verdict, rt_ok)
+    (resp, post, verdict, rt_ok, info)
 }
 
 pub fn main(args: &[String]) -> i32 {
@@ -156,7 +255,13 @@ pub fn main(args: &[String]) -> i32 {
                         }
                     };
                     let seq = stats.records.fetch_add(1, Ordering::Relaxed);
-                    let (resp, post, verdict, rt_ok) = replay_edge(&mut w, &e);
+                    let (resp, post, verdict, rt_ok, info) = replay_edge(&mut w, &e);
+                    if !info.0 {
+                        stats.info_order_differs.fetch_add(1, Ordering::Relaxed);
+                    }
+                    if info.1.iter().any(|k| k != "class_full") {
+                        stats.info_extra_attrs.fetch_add(1, Ordering::Relaxed);
+                    }
                     if !rt_ok {
                         stats.roundtrip_failures.fetch_add(1, Ordering::Relaxed);
                         eprintln!("harness: projection(injection(S)) != S for record {}", seq);
@@ -188,8 +293,14 @@ pub fn main(args: &[String]) -> i32 {
                         if let Err(why) = &verdict {
                             stats.mismatches.fetch_add(1, Ordering::Relaxed);
                             v["mismatch"] = serde_json::Value::String(why.clone());
+                            // the code went somewhere the specification does not go: look at what follows
+                            let follow = if post != apply_first(&e) { followups(&mut w, &e, &post, seq) } else { vec![] };
                             let mut g = out.lock().unwrap();
                             writeln!(g, "{}", v).unwrap();
+                            for f in follow {
+                                stats.followups.fetch_add(1, Ordering::Relaxed);
+                                writeln!(g, "{}", serde_json::to_string(&f).unwrap()).unwrap();
+                            }
                         }
                         if let Some(a) = &all {
                             let mut g = a.lock().unwrap();
@@ -251,6 +362,9 @@ pub fn main(args: &[String]) -> i32 {
         "mismatches": stats.mismatches.load(Ordering::Relaxed),
         "roundtrip_failures": stats.roundtrip_failures.load(Ordering::Relaxed),
         "parse_failures": stats.parse_failures.load(Ordering::Relaxed),
+        "followups": stats.followups.load(Ordering::Relaxed),
+        "info_message_order_differs": stats.info_order_differs.load(Ordering::Relaxed),
+        "info_unmodelled_attributes": stats.info_extra_attrs.load(Ordering::Relaxed),
         "by_kind": kinds.iter().map(|(k, (a, r))| (k.clone(), serde_json::json!({"accepted": a, "refused": r}))).collect::<BTreeMap<_, _>>(),
         "samples": *samples.lock().unwrap(),
         "tlc_output": *other_lines.lock().unwrap(),
